@@ -558,6 +558,8 @@ impl TensorWal {
     pub fn rotate(&mut self) -> WalResult<()> {
         self.file.flush()?;
         self.file.get_ref().sync_all()?;
+        #[cfg(neumann_verif)]
+        crate::verif_hooks::crash_point("wal.rotate.synced");
 
         // Delete oldest rotated file
         let oldest = self.rotated_path(self.config.max_rotated_files);
@@ -578,12 +580,16 @@ impl TensorWal {
         if self.path.exists() {
             std::fs::rename(&self.path, self.rotated_path(1))?;
         }
+        #[cfg(neumann_verif)]
+        crate::verif_hooks::crash_point("wal.rotate.renamed");
 
         // Create fresh WAL
         let file = File::create(&self.path)?;
         self.file = BufWriter::new(file);
         self.current_size = 0;
         self.entry_count = 0;
+        #[cfg(neumann_verif)]
+        crate::verif_hooks::crash_point("wal.rotate.created");
 
         Ok(())
     }
